@@ -111,3 +111,18 @@ pub fn vfw_pad<S: Write + ?Sized>(f: &mut S, prev: Result<(), S::E>, a: &i64, w:
     ensures prev is Err ==> r is Err, r is Ok ==> final(f).out() == old(f).out() + pad_int(*a as int, w as nat)
 { unimplemented!() }
 
+// rule R13: format!(..) builds a fresh String through the same chain (assumed: writing to a String cannot fail)
+impl Write for String {
+    type E = std::fmt::Error;
+    open spec fn out(&self) -> Seq<char> { self@ }
+}
+#[verifier::external_body]
+pub fn vs_new() -> (r: String) ensures r@ == Seq::<char>::empty() { unimplemented!() }
+#[verifier::external_body]
+pub fn vs_ok(s: &String, r: Result<(), std::fmt::Error>) ensures r is Ok { unimplemented!() }
+// `{:0N}` of a non-negative value below 10^N (assumed): exactly N decimal digits
+#[verifier::external_body]
+pub proof fn axiom_pad_width(v: int, w: nat)
+    requires 0 <= v, (w == 2 && v < 100) || (w == 4 && v < 10000)
+    ensures pad_int(v, w).len() == w
+{}
